@@ -540,6 +540,8 @@ class Check:
         for fid, text in sorted(self.known_hit.items()):
             print("KNOWN-FINDING: property=%s %s %s" % (self.prop, fid, text))
         rc = 0
+        # concrete failing inputs first
+        self.violations.sort(key=lambda v: 0 if v[2] else 1)
         for i, (what, replay, found) in enumerate(self.violations[:5]):
             path = os.path.join(REPLAY, "%s_%d_%d.json" % (self.prop, self.seed, i))
             with open(path, "w") as f:
